@@ -254,6 +254,27 @@ def run(ctx):
                     ctx.oracle_fail("%s on operands of %d and %d row ids returned a wrong result" % (fn, na, nb), case, cls="C08-wrong-result")
             except Exception as e:
                 ctx.oracle_fail("%s on operands of %d and %d row ids raised %s" % (fn, na, nb, type(e).__name__), case, cls="C08-raises")
+    # operands that are two views of ONE buffer (same first element, same length, different strides), and an array with
+    # itself: the kernels must compute on the elements of each view, whatever memory they share
+    for n in (1, 2, 5, 9):
+        base = np.arange(0, 4 * n + 4, dtype=np.uint32) * 3
+        pairs = [("contiguous/stride2", base[:n], base[::2][:n]), ("stride2/contiguous", base[::2][:n], base[:n]),
+                 ("stride2/stride3", base[::2][:n], base[::3][:n]), ("same view twice", base[1:1 + n], base[1:1 + n]),
+                 ("overlapping slices", base[:n], base[n // 2:n // 2 + n])]
+        for name, a, b in pairs:
+            for fn, f in (("inter", so.set_intersect_merge_np), ("union", so.set_union_merge_np), ("diff", so.set_difference_merge_np)):
+                case = {"fn": fn, "shared_buffer": name, "l": a.tolist(), "r": b.tolist()}
+                ctx.case(case, nontrivial=True)
+                ctx.hit("shared_buffer_views")
+                try:
+                    got = [int(x) for x in np.asarray(f(a, b)).tolist()]
+                except Exception as e:
+                    ctx.oracle_fail("%s on two views of one buffer (%s) raised %s" % (fn, name, type(e).__name__), case, cls="C08-raises")
+                    continue
+                exp = expect(fn, a.tolist(), b.tolist())
+                if got != exp:
+                    ctx.oracle_fail("%s(%s, %s) on two views of one buffer (%s) = %s, set algebra says %s" % (
+                        fn, a.tolist(), b.tolist(), name, got, exp), case, cls="C08-wrong-result")
     concurrent_calls(ctx, so)
     if ctx.oracle_only:
         return
@@ -281,6 +302,8 @@ def run(ctx):
 def replay(ctx, rep):
     so = core.load_kernels("plain")
     c = rep["case"]
+    if c.get("shared_buffer"):
+        return True   # rebuilt by the check itself (views of one buffer)
     if c.get("concurrent"):
         n0 = len(ctx.oracle_failures)
         concurrent_calls(ctx, so)
